@@ -34,18 +34,44 @@ def cmdScan (args : List String) : String :=
   | _ => "bad-request"
 
 /-! ### alias store (C20) -/
-open DDP.TokenKey in
-def parseTypes (spec : String) : List (Nat × Bool × Nat) :=
+/-- type table entries `id:kind:name[:target]` — kind 0 a Kombination, 1 a list of a fresh Kombination,
+2 a type alias of `target`, 3 a list whose element type is `target` -/
+structure TyEntry where
+  id : Nat
+  kind : Nat
+  name : Nat
+  target : Nat
+
+def parseTypes (spec : String) : List TyEntry :=
   if spec == "" || spec == "-" then [] else
   (spec.splitOn ",").filterMap fun e =>
     match e.splitOn ":" with
-    | [i, l, n] => some (i.toNat!, l == "1", n.toNat!)
+    | [i, l, n] => some ⟨i.toNat!, l.toNat!, n.toNat!, 0⟩
+    | [i, l, n, t] => some ⟨i.toNat!, l.toNat!, n.toNat!, t.toNat!⟩
     | _ => none
 
-def typeName (tys : List (Nat × Bool × Nat)) (id : Nat) : Nat :=
-  ((tys.find? (·.1 == id)).map (·.2.2)).getD 0
-def typeIsList (tys : List (Nat × Bool × Nat)) (id : Nat) : Bool :=
-  ((tys.find? (·.1 == id)).map (·.2.1)).getD false
+/-- `ddptypes.GetUnderlying` on the identities of the table: aliases resolve to their target,
+a list resolves to the (first listed) list over the resolved element type -/
+def typeUnder (tys : List TyEntry) : Nat → Nat → Nat
+  | 0, id => id
+  | fuel + 1, id =>
+    match tys.find? (·.id == id) with
+    | none => id
+    | some e =>
+      if e.kind == 2 then typeUnder tys fuel e.target
+      else if e.kind == 3 then
+        let u := typeUnder tys fuel e.target
+        match tys.find? (fun f => f.kind == 3 && typeUnder tys fuel f.target == u) with
+        | some f => f.id
+        | none => id
+      else id
+
+def typeName (tys : List TyEntry) (id : Nat) : Nat :=
+  match tys.find? (·.id == id) with
+  | none => 0
+  | some e => if e.kind == 3 then ((tys.find? (·.id == typeUnder tys 8 e.target)).map (·.name)).getD 0 else e.name
+def typeIsList (tys : List TyEntry) (id : Nat) : Bool :=
+  ((tys.find? (·.id == id)).map (fun e => e.kind == 1 || e.kind == 3)).getD false
 
 open DDP.TokenKey in
 def parseKey (s : String) : Option TokKey :=
@@ -78,7 +104,7 @@ def cmdTokcmp (args : List String) : String :=
     let t := parseTypes tys
     match parseKey a, parseKey b with
     | some a, some b =>
-      s!"eq={b2s (TokenKey.tokEq a b)} less={b2s (TokenKey.tokLess (typeName t) (typeIsList t) a b)}"
+      s!"eq={b2s (TokenKey.tokEqU (typeUnder t 8) a b)} less={b2s (TokenKey.tokLessU (typeUnder t 8) (typeName t) (typeIsList t) a b)}"
     | _, _ => "bad-key"
   | _ => "bad-request"
 
@@ -87,8 +113,8 @@ def cmdTrie (args : List String) : String :=
   match args with
   | [tys, ops] =>
     let t := parseTypes tys
-    let eq := TokenKey.tokEq
-    let less := TokenKey.tokLess (typeName t) (typeIsList t)
+    let eq := TokenKey.tokEqU (typeUnder t 8)
+    let less := TokenKey.tokLessU (typeUnder t 8) (typeName t) (typeIsList t)
     let step (st : Trie.Node TokenKey.TokKey Nat × List String) (op : String) : Trie.Node TokenKey.TokKey Nat × List String :=
       let (n, out) := st
       match op.toList with
